@@ -40,6 +40,7 @@ type Obligation struct {
 	fn     *ssa.Function
 	fc     *FuncContract
 	clause *Clause
+	Cases  []string // edge conditions of the last control-flow join: the proof may be split along them
 }
 
 type edge struct {
@@ -86,6 +87,7 @@ type Frame struct {
 	curEnv  *SpecEnv
 	curPos  token.Pos
 	curClause *Clause
+	caseConds []string
 	loopPre map[*ssa.BasicBlock]*State
 	loopLvs map[*ssa.BasicBlock][]lval
 	fspec     *frameSpec
@@ -131,7 +133,7 @@ func (f *Frame) oblige(kind, label, goal string, pos token.Pos, props []string, 
 		ps = append(ps, tf.fc.Props...)
 	}
 	o := &Obligation{Name: name, Kind: kind, Props: ps, Func: tf.c.fnName, Pos: f.pos(pos),
-		NDefs: len(c.decls), Goal: implies(f.reach, goal), Text: text, ctx: c, fn: tf.fn, fc: tf.fc, clause: f.curClause}
+		NDefs: len(c.decls), Goal: implies(f.reach, goal), Text: text, ctx: c, fn: tf.fn, fc: tf.fc, clause: f.curClause, Cases: f.caseConds}
 	if trivial {
 		// the goal simplified to true syntactically while it was being built
 		o.Status, o.Solver = "unsat", "syntactic"
@@ -264,6 +266,12 @@ func (f *Frame) run(entry *State, reach string) {
 		}
 		st, rc := f.c.merge(es)
 		f.st, f.reach, f.curBlock = st, rc, b
+		if len(es) > 1 && len(es) <= 6 {
+			f.caseConds = nil
+			for _, e := range es {
+				f.caseConds = append(f.caseConds, e.cond)
+			}
+		}
 		if _, isHeader := f.loopOrd[b]; isHeader {
 			f.enterLoop(b)
 		}
@@ -485,9 +493,17 @@ func (f *Frame) enterLoop(h *ssa.BasicBlock) {
 			n := c.fresh("L"+fmt.Sprint(ord)+"."+a.Comment, c.sortOf(t))
 			c.assume(implies(f.reach, c.typeInv(n, t)))
 			f.st.cells[a] = n
-			if _, ok := f.st.ptrs[a]; ok {
-				delete(f.st.ptrs, a)
-				f.st.poison[a] = true
+			if pv, ok := f.st.ptrs[a]; ok {
+				if pv.P != nil && len(pv.P.Steps) > 0 && pv.P.Steps[len(pv.P.Steps)-1].IsIdx && len(pv.Alts) == 0 && !hv[f.cellKey(a)+":shape"] {
+					// a raw pointer advanced by the loop: same object, unknown position
+					q := *pv.P
+					q.Steps = append([]Step{}, pv.P.Steps...)
+					q.Steps[len(q.Steps)-1].Idx = c.fresh("L"+fmt.Sprint(ord)+"."+a.Comment+".idx", c.idxSort())
+					f.st.ptrs[a] = Val{T: pv.T, P: &q}
+				} else {
+					delete(f.st.ptrs, a)
+					f.st.poison[a] = true
+				}
 			}
 		}
 	}
@@ -591,6 +607,11 @@ func (f *Frame) closeLoop(h *ssa.BasicBlock, cond string) {
 			p2, ok2 := f.st.ptrs[a]
 			if ok1 != ok2 || (ok1 && (p1.P == nil || p2.P == nil || p1.P.String() != p2.P.String())) {
 				changed = true
+				// only "same object, other position" may be summarised by a fresh index at the loop head
+				if !(ok1 && ok2 && p1.P != nil && p2.P != nil && sameShape(p1.P, p2.P)) && !set[f.cellKey(a)+":shape"] {
+					set[f.cellKey(a)+":shape"] = true
+					f.hvChanged = true
+				}
 			}
 			if changed && !set[f.cellKey(a)] {
 				set[f.cellKey(a)] = true
@@ -633,6 +654,12 @@ func (f *Frame) closeLoop(h *ssa.BasicBlock, cond string) {
 	env.pre = f.loopPre[h]
 	if env.pre == nil {
 		env.pre = f.headerSt[h]
+	}
+	// asserts: intermediate facts (typically instances of axioms) proved here and then available below
+	for i, as := range ls.Asserts {
+		g := env.evalBool(as.Expr)
+		f.oblige("assert", fmt.Sprintf("loop%d.%d", ord, i), g, blockPos(h), as.Props, as.Text)
+		c.assume(implies(f.reach, g))
 	}
 	for i, inv := range ls.Inv {
 		parts := c.eng.splitConjDeep(f.fc.Pkg, inv.Expr, 0)
@@ -925,6 +952,27 @@ func (f *Frame) execInstr(in ssa.Instruction) {
 		sv := f.get(x.X)
 		st := sv.T.Underlying().(*types.Struct)
 		t := st.Field(x.Field).Type()
+		if isGoSliceLike(sv.T) {
+			switch x.Field {
+			case 0:
+				off := fmt.Sprintf("(xoff %s)", sv.S)
+				f.set(x, Val{T: t, P: &Path{Kind: rootArr, T: types.Typ[types.Uint8], Ref: fmt.Sprintf("(sbase %s)", sv.S), Steps: []Step{{IsIdx: true, Idx: off, Raw: true}}, Lo: off, Hi: c.idxAdd(off, fmt.Sprintf("(xcap %s)", sv.S))}})
+			case 1:
+				f.set(x, Val{T: t, S: fmt.Sprintf("(xlen %s)", sv.S)})
+			default:
+				f.set(x, Val{T: t, S: fmt.Sprintf("(xcap %s)", sv.S)})
+			}
+			return
+		}
+		if isGoStringLike(sv.T) {
+			if x.Field == 1 {
+				f.set(x, Val{T: t, S: fmt.Sprintf("(slen %s)", sv.S)})
+				return
+			}
+			off := fmt.Sprintf("(soff %s)", sv.S)
+			f.set(x, Val{T: t, P: &Path{Kind: rootStrArr, Ref: fmt.Sprintf("(sarr %s)", sv.S), Steps: []Step{{IsIdx: true, Idx: off, Raw: true}}, Lo: off, Hi: c.idxAdd(off, fmt.Sprintf("(slen %s)", sv.S))}})
+			return
+		}
 		f.set(x, Val{T: t, S: fmt.Sprintf("(%s %s)", c.fieldSel(c.sortOf(sv.T), st, x.Field), sv.S)})
 	case *ssa.IndexAddr:
 		f.execIndexAddr(x)
@@ -1193,6 +1241,12 @@ func (f *Frame) ptrArith(op string, a, b Val, x *ssa.BinOp) Val {
 		}
 	}
 	panic(unsupported("pointer arithmetic " + op))
+}
+
+// sameShape: same root object and same steps except for the value of the last index.
+func sameShape(a, b *Path) bool {
+	n := len(a.Steps)
+	return samePathRoot(a, b) && n > 0 && a.Steps[n-1].IsIdx && b.Steps[n-1].IsIdx && a.View == b.View
 }
 
 func samePathRoot(a, b *Path) bool {
